@@ -62,6 +62,16 @@ type Ctx struct {
 	final      atomic.Bool // set before the last write; a result file without it is a partial snapshot
 }
 
+// Dispatch is the name a harness that serves several checks selects its plans or scenarios by: the
+// id of the check being run (a sub-check such as "C14-bg" keeps its own id when it runs as part of
+// another property's check, while Prop is then the property its violations are attributed to).
+func (c *Ctx) Dispatch() string {
+	if id := os.Getenv("VERIF_CHECK_ID"); id != "" {
+		return id
+	}
+	return c.Prop
+}
+
 // Main runs a harness body under a Ctx and writes the result file.
 func Main(t *testing.T, prop string, run func(c *Ctx)) {
 	c := &Ctx{T: t, Prop: prop, tier: os.Getenv("VERIF_TIER"), out: os.Getenv("VERIF_OUT"),
